@@ -415,8 +415,8 @@ impl Prop for C04 {
                 Err(e) => Err(Fail::new(e, bytes_case(bytes, json!({"text": d.laid.text})))),
             }
         } else {
-            let nfam = if s.chance(1, 1500) { 6 } else { 5 };
-            let text = match s.below(nfam) {
+            let fam_sel = if s.chance(1, 400) { 5 } else { s.below(5) };
+            let text = match fam_sel {
                 4 => {
                     // byte order mark / zero-width characters in front of a well-formed document
                     let d = doccase::gen_doc(&mut s, &GenCfg::default(), &lc)?;
